@@ -47,7 +47,9 @@ type BoundsConfig struct {
 	// FieldMinLen: len(x.F) >= n ;  FieldLeLen: 0 <= x.F <= len(x.G) for sibling field G
 	FieldMinLen map[string]int64
 	FieldLeLen  map[string]string
-	MaxDepth    int
+	// FieldMax: assumed (not verified) upper bound of an integer field, e.g. stored sizes
+	FieldMax map[string]int64
+	MaxDepth int
 }
 
 type BoundOb struct {
@@ -103,6 +105,28 @@ func (ba *BoundsAnalysis) carriesTaintedField(t types.Type) bool {
 		}
 	}
 	return false
+}
+
+// AtReturns builds an analysis context for fn (no taint) and calls f for every
+// return site with a linearisation function and a prover bound to that site.
+func (ba *BoundsAnalysis) AtReturns(fn *ssa.Function, f func(ret *ssa.Return, lin func(ssa.Value) *Lin, prove func(*Lin) bool, show func(*Lin) string)) {
+	c := &fctx{ba: ba, fn: fn, taint: map[ssa.Value]uint8{}, linMemo: map[ssa.Value]*Lin{}, intr: map[string][]Constraint{},
+		disp: map[string]string{}, ivs: map[*ssa.Phi]*ivInfo{}, branch: map[*ssa.BasicBlock][]Constraint{},
+		storesToField: map[string]bool{}, allocStores: map[*ssa.Alloc][]*ssa.Store{}, inProgress: map[ssa.Value]bool{},
+		paramIdx: map[*ssa.Parameter]int{}, sum: &fsum{}, chain: []string{core.FuncName(fn)}}
+	c.prepass()
+	c.findIVs()
+	for _, b := range fn.Blocks {
+		if b == fn.Recover || len(b.Instrs) == 0 {
+			continue
+		}
+		ret, ok := b.Instrs[len(b.Instrs)-1].(*ssa.Return)
+		if !ok {
+			continue
+		}
+		c.at, c.atEnd = ret, nil
+		f(ret, c.lin, func(t *Lin) bool { return c.proveAt(b, t) }, c.show)
+	}
 }
 
 // VerifyFieldInvariants checks, at every store to a field with a record invariant
@@ -374,6 +398,7 @@ func (ba *BoundsAnalysis) analyse(fn *ssa.Function, tparams map[int]bool, tfree 
 	c.propagateTaint()
 	c.findIVs()
 	c.sinks()
+	c.loopProgress()
 	return s
 }
 
@@ -1443,6 +1468,9 @@ func (c *fctx) opaque(v ssa.Value) *Lin {
 			c.addRange(k, lo, hi, "type range of "+c.dispOf(k))
 		}
 		if f, ok := loadedField(v); ok {
+			if mx, ok := c.ba.Cfg.FieldMax[f]; ok {
+				c.intr[k] = append(c.intr[k], GE0(LinConst(mx).Sub(LinAtom(k)), "assumed bound of "+f))
+			}
 			if sib, ok := c.ba.Cfg.FieldLeLen[f]; ok {
 				if ld, ok := v.(*ssa.UnOp); ok {
 					if fa, ok := ld.X.(*ssa.FieldAddr); ok {
@@ -2037,7 +2065,8 @@ func (c *fctx) linBinOp(x *ssa.BinOp) *Lin {
 			if ly.IsConst() && ly.C.IsInt() && ly.C.Num().IsInt64() && ly.C.Num().Int64() < 63 && unsignedX {
 				kk := new(big.Rat).SetInt(new(big.Int).Lsh(big.NewInt(1), uint(ly.C.Num().Int64())))
 				kq := NewLin().AddScaled(l, kk)
-				c.intr[k] = append(c.intr[k], GE0(l, "x>>k >= 0"), GE0(lx.Sub(kq), "2^k*(x>>k) <= x"))
+				c.intr[k] = append(c.intr[k], GE0(l, "x>>k >= 0"), GE0(lx.Sub(kq), "2^k*(x>>k) <= x"),
+					GE0(kq.Add(&Lin{T: map[string]*big.Rat{}, C: new(big.Rat).Sub(kk, big.NewRat(1, 1))}).Sub(lx), "x <= 2^k*(x>>k)+2^k-1"))
 			}
 		}
 		return l
@@ -2275,6 +2304,19 @@ func (c *fctx) makeCandidates() {
 			name := ps.cell.name
 			c.cands = append(c.cands, &cand{psi: ps, kind: "ge0", alive: true, why: "IV: loop invariant " + name + " >= 0"})
 			c.cands = append(c.cands, &cand{psi: ps, kind: "leBig", alive: true, why: "IV: loop invariant " + name + " <= 2^42 (no wrap-around)"})
+			{
+				var initL *Lin
+				nInit := 0
+				for _, pr := range b.Preds {
+					if !b.Dominates(pr) {
+						initL = c.cellOutLin(ps.cell, pr)
+						nInit++
+					}
+				}
+				if nInit == 1 && initL != nil && !initL.IsConst() {
+					c.cands = append(c.cands, &cand{psi: ps, kind: "geInit", other: initL, alive: true, why: "IV: loop invariant " + name + " >= initial value"})
+				}
+			}
 			seenL := map[string]bool{}
 			for _, l := range lens {
 				seenL[l.String()] = true
@@ -2969,6 +3011,271 @@ func (c *fctx) gatherAtoms(b *ssa.BasicBlock, target *Lin) ([]Constraint, map[st
 		}
 	}
 	return facts, seen
+}
+
+// ---- loop progress ----------------------------------------------------------------------
+//
+// A loop whose continuation depends on attacker-influenced values must have a
+// variant: an integer loop variable that strictly increases (decreases) on
+// every back edge and is bounded in that direction by something tied to the
+// input size. Accepted bounds for an increasing variant v:
+//   (1) an exit test that keeps the loop only while v < B (or v <= B) with B a length, a
+//       constant, or provably <= 64*len(input)+2^20;
+//   (2) v is the low bound / index of a slice or index expression on an input-sized
+//       slice executed on every iteration (running past the end panics or is caught);
+// for a decreasing variant: an exit test v > B / v >= B with the initial value bounded as in (1).
+// Consuming reads from an io.Reader-like source whose failure leaves the loop count as progress too.
+
+var readerCalls = map[string]bool{
+	"lib/btc.ReadVLen": true, "(*bytes.Reader).Read": true, "(*bytes.Buffer).Read": true, "(*bytes.Reader).ReadByte": true,
+	"(*bytes.Buffer).ReadByte": true, "encoding/binary.Read": true, "io.ReadFull": true, "(*bytes.Buffer).Next": true,
+	"(*bufio.Reader).Read": true, "(*bufio.Reader).ReadByte": true, "lib/btc.ReadVarInt": true, "lib/btc.ReadString": true,
+}
+
+func (c *fctx) loopProgress() {
+	for _, h := range c.fn.Blocks {
+		var latches []*ssa.BasicBlock
+		for _, pr := range h.Preds {
+			if h.Dominates(pr) {
+				latches = append(latches, pr)
+			}
+		}
+		if len(latches) == 0 {
+			continue
+		}
+		// loop body: blocks dominated by h from which a latch is reachable
+		inLoop := map[*ssa.BasicBlock]bool{h: true}
+		var stack []*ssa.BasicBlock
+		stack = append(stack, latches...)
+		for len(stack) > 0 {
+			b := stack[len(stack)-1]
+			stack = stack[:len(stack)-1]
+			if inLoop[b] || !h.Dominates(b) {
+				continue
+			}
+			inLoop[b] = true
+			stack = append(stack, b.Preds...)
+		}
+		// is the loop's continuation attacker-influenced? (an exit test inside the loop on a tainted value)
+		tainted := false
+		var exitTests []*ssa.If
+		for b := range inLoop {
+			iff, ok := b.Instrs[len(b.Instrs)-1].(*ssa.If)
+			if !ok {
+				continue
+			}
+			leaves := !inLoop[b.Succs[0]] || !inLoop[b.Succs[1]]
+			if !leaves {
+				continue
+			}
+			exitTests = append(exitTests, iff)
+			if bo, ok := iff.Cond.(*ssa.BinOp); ok {
+				// integer comparisons only: pointer walks and boolean state tests are not counted loops
+				if _, _, isInt := intRange(bo.X.Type()); isInt && (c.tv(bo.X) || c.tv(bo.Y)) {
+					tainted = true
+				}
+			}
+		}
+		if !tainted {
+			continue
+		}
+		pos := InstrPos(h.Instrs[len(h.Instrs)-1])
+		where := c.ba.Prog.SrcAt(pos)
+		if c.loopHasVariant(h, latches, inLoop, exitTests) {
+			c.ba.Obs = append(c.ba.Obs, &BoundOb{Fn: c.fn, Instr: h.Instrs[len(h.Instrs)-1], Kind: "progress", Expr: "loop " + where, Need: "a strictly monotone loop variable bounded by the input size", Proven: true, Chain: c.chain, InRecover: c.inRecover})
+			continue
+		}
+		c.ba.Obs = append(c.ba.Obs, &BoundOb{Fn: c.fn, Instr: h.Instrs[len(h.Instrs)-1], Kind: "progress", Expr: "loop " + where,
+			Need: "a strictly monotone loop variable bounded by the input size (the number of iterations is attacker-controlled and no cursor provably advances)", Proven: false, Chain: c.chain, InRecover: c.inRecover})
+	}
+}
+
+type loopVar struct {
+	atom  string
+	edges func(pred *ssa.BasicBlock) *Lin // value carried on the back edge from pred
+	init  func() (*Lin, *ssa.BasicBlock)
+}
+
+func (c *fctx) loopHasVariant(h *ssa.BasicBlock, latches []*ssa.BasicBlock, inLoop map[*ssa.BasicBlock]bool, exitTests []*ssa.If) bool {
+	// a consuming read whose failure leaves the loop, executed on every iteration
+	for b := range inLoop {
+		domAll := true
+		for _, l := range latches {
+			if !b.Dominates(l) {
+				domAll = false
+			}
+		}
+		if !domAll {
+			continue
+		}
+		for _, ins := range b.Instrs {
+			if call, ok := ins.(*ssa.Call); ok && readerCalls[CallName(call)] {
+				return true
+			}
+		}
+	}
+	var vars []loopVar
+	for _, ins := range h.Instrs {
+		phi, ok := ins.(*ssa.Phi)
+		if !ok {
+			break
+		}
+		if _, _, isInt := intRange(phi.Type()); !isInt {
+			continue
+		}
+		p := phi
+		vars = append(vars, loopVar{atom: c.atomKey(p), edges: func(pred *ssa.BasicBlock) *Lin {
+			for i, pr := range h.Preds {
+				if pr == pred {
+					return c.lin(p.Edges[i])
+				}
+			}
+			return nil
+		}, init: func() (*Lin, *ssa.BasicBlock) {
+			for i, pr := range h.Preds {
+				if !h.Dominates(pr) {
+					return c.lin(p.Edges[i]), pr
+				}
+			}
+			return nil, nil
+		}})
+	}
+	for _, ps := range c.psiAt(h) {
+		q := ps
+		vars = append(vars, loopVar{atom: c.psiAtom(q), edges: func(pred *ssa.BasicBlock) *Lin { return c.cellOutLin(q.cell, pred) },
+			init: func() (*Lin, *ssa.BasicBlock) {
+				for _, pr := range h.Preds {
+					if !h.Dominates(pr) {
+						return c.cellOutLin(q.cell, pr), pr
+					}
+				}
+				return nil, nil
+			}})
+	}
+	for _, v := range vars {
+		va := LinAtom(v.atom)
+		inc, dec := true, true
+		for _, l := range latches {
+			e := v.edges(l)
+			if e == nil {
+				inc, dec = false, false
+				break
+			}
+			if !c.proveOnEdge(l, h, e.Sub(va).AddConst(-1)) {
+				inc = false
+			}
+			if !c.proveOnEdge(l, h, va.Sub(e).AddConst(-1)) {
+				dec = false
+			}
+		}
+		if !inc && !dec {
+			continue
+		}
+		// bound by an exit test
+		for _, iff := range exitTests {
+			b := iff.Block()
+			domAll := true
+			for _, l := range latches {
+				if !b.Dominates(l) && b != l {
+					domAll = false
+				}
+			}
+			if !domAll {
+				continue
+			}
+			stayTrue := inLoop[b.Succs[0]]
+			for _, f := range c.condFacts(iff.Cond, stayTrue, 0) {
+				co, ok := f.L.T[v.atom]
+				if !ok {
+					continue
+				}
+				if inc && co.Sign() < 0 {
+					// B - k*v >= 0 : v bounded above by B/k ; B = f.L + k*v
+					bnd := f.L.Clone()
+					delete(bnd.T, v.atom)
+					if c.inputBounded(b, bnd) {
+						return true
+					}
+				}
+				if dec && co.Sign() > 0 {
+					// v bounded below by a loop test; the trip count is init - bound: init must be input-bounded
+					if il, ib := v.init(); il != nil {
+						okb := false
+						c.atBlockEnd(ib, func() { okb = c.inputBounded(ib, il) })
+						if okb {
+							return true
+						}
+					}
+				}
+			}
+		}
+		if inc {
+			// bound by a sink executed on every iteration that uses v as low bound / index on an input-sized slice
+			for b := range inLoop {
+				domAll := true
+				for _, l := range latches {
+					if !b.Dominates(l) {
+						domAll = false
+					}
+				}
+				if !domAll {
+					continue
+				}
+				for _, ins := range b.Instrs {
+					var base ssa.Value
+					var idx ssa.Value
+					switch x := ins.(type) {
+					case *ssa.Slice:
+						base, idx = x.X, x.Low
+					case *ssa.IndexAddr:
+						base, idx = x.X, x.Index
+					case *ssa.Index:
+						base, idx = x.X, x.Index
+					}
+					if base == nil || idx == nil {
+						continue
+					}
+					if _, isMap := base.Type().Underlying().(*types.Map); isMap {
+						continue
+					}
+					il := c.lin(idx)
+					// idx >= v  (so idx <= len bounds v)
+					if co, ok := il.T[v.atom]; ok && co.Sign() > 0 {
+						return true
+					}
+				}
+			}
+		}
+	}
+	return false
+}
+
+// inputBounded: is l provably <= a constant (2^25) or <= 64*len(x)+2^20 for some length atom at block b?
+func (c *fctx) inputBounded(b *ssa.BasicBlock, l *Lin) bool {
+	if l.IsConst() {
+		return true
+	}
+	if c.proveAt(b, LinConst(1<<25).Sub(l)) {
+		return true
+	}
+	// every atom of l is a length or the bound is a multiple of lengths
+	for a := range l.T {
+		if strings.HasPrefix(a, "len:") {
+			t := NewLin().AddScaled(LinAtom(a), big.NewRat(64, 1)).AddConst(1 << 20).Sub(l)
+			if c.proveAt(b, t) {
+				return true
+			}
+		}
+	}
+	for k := range c.intr {
+		if strings.HasPrefix(k, "len:") {
+			t := NewLin().AddScaled(LinAtom(k), big.NewRat(64, 1)).AddConst(1 << 20).Sub(l)
+			if c.proveAt(b, t) {
+				return true
+			}
+		}
+	}
+	return false
 }
 
 // ---- sinks ---------------------------------------------------------------------------------
